@@ -3,6 +3,9 @@ package c07
 
 import (
 	"fmt"
+	pa "github.com/cedar-policy/cedar-go/ast"
+	"github.com/cedar-policy/cedar-go/types"
+	"net/netip"
 	"reflect"
 	"strings"
 	"time"
@@ -297,6 +300,107 @@ func Depth3Exprs() []D3 {
 	return out
 }
 
+// builder table: every exported builder of the public `ast` package (which wraps
+// x/exp/ast) next to the Cedar text of the node it is documented to build. The parser is
+// the subject of the rest of this check; here the table binds each BUILDER to the same tree,
+// so that a builder producing another operator, swapped operands or another extension
+// name is seen.
+func builderTable() *core.Family {
+	a, b, c := pa.Context().Access("a"), pa.Context().Access("b"), pa.Context().Access("c")
+	u := types.NewEntityUID("U", "x")
+	type row struct {
+		text string
+		node pa.Node
+	}
+	rows := []row{
+		{"context.a == context.b", a.Equal(b)}, {"context.a != context.b", a.NotEqual(b)}, {"context.a < context.b", a.LessThan(b)}, {"context.a <= context.b", a.LessThanOrEqual(b)},
+		{"context.a > context.b", a.GreaterThan(b)}, {"context.a >= context.b", a.GreaterThanOrEqual(b)},
+		{"context.a.lessThan(context.b)", a.DecimalLessThan(b)}, {"context.a.lessThanOrEqual(context.b)", a.DecimalLessThanOrEqual(b)},
+		{"context.a.greaterThan(context.b)", a.DecimalGreaterThan(b)}, {"context.a.greaterThanOrEqual(context.b)", a.DecimalGreaterThanOrEqual(b)},
+		{`context.a like "x*"`, a.Like(types.NewPattern("x", types.Wildcard{}))}, {"context.a && context.b", a.And(b)}, {"context.a || context.b", a.Or(b)}, {"!context.a", pa.Not(a)},
+		{"if context.a then context.b else context.c", pa.IfThenElse(a, b, c)}, {"context.a + context.b", a.Add(b)}, {"context.a - context.b", a.Subtract(b)}, {"context.a * context.b", a.Multiply(b)}, {"-context.a", pa.Negate(a)},
+		{"context.a in context.b", a.In(b)}, {"context.a is U", a.Is("U")}, {"context.a is NS::U in context.b", a.IsIn("NS::U", b)},
+		{"context.a.contains(context.b)", a.Contains(b)}, {"context.a.containsAll(context.b)", a.ContainsAll(b)}, {"context.a.containsAny(context.b)", a.ContainsAny(b)}, {"context.a.isEmpty()", a.IsEmpty()},
+		{`context.a["k k"]`, a.Access("k k")}, {"context.a has k", a.Has("k")}, {`context.a has "k k"`, a.Has("k k")}, {"context.a.getTag(context.b)", a.GetTag(b)}, {"context.a.hasTag(context.b)", a.HasTag(b)},
+		{"context.a.isIpv4()", a.IsIpv4()}, {"context.a.isIpv6()", a.IsIpv6()}, {"context.a.isMulticast()", a.IsMulticast()}, {"context.a.isLoopback()", a.IsLoopback()}, {"context.a.isInRange(context.b)", a.IsInRange(b)},
+		{"context.a.offset(context.b)", a.Offset(b)}, {"context.a.durationSince(context.b)", a.DurationSince(b)}, {"context.a.toDate()", a.ToDate()}, {"context.a.toTime()", a.ToTime()},
+		{"context.a.toDays()", a.ToDays()}, {"context.a.toHours()", a.ToHours()}, {"context.a.toMinutes()", a.ToMinutes()}, {"context.a.toSeconds()", a.ToSeconds()}, {"context.a.toMilliseconds()", a.ToMilliseconds()},
+		{"decimal(context.a)", pa.DecimalExtensionCall(a)}, {"ip(context.a)", pa.IPExtensionCall(a)}, {"datetime(context.a)", pa.DatetimeExtensionCall(a)}, {"duration(context.a)", pa.DurationExtensionCall(a)},
+		{"true", pa.True()}, {"false", pa.False()}, {"true", pa.Boolean(true)}, {`"s"`, pa.String("s")}, {"7", pa.Long(7)}, {"-7", pa.Long(-7)}, {`U::"x"`, pa.EntityUID("U", "x")}, {`U::"x"`, pa.Value(u)},
+		{"[context.a, context.b]", pa.Set(a, b)}, {"[]", pa.Set()}, {`{"k": context.a, "j j": context.b}`, pa.Record(pa.Pairs{{Key: "k", Value: a}, {Key: "j j", Value: b}})}, {"{}", pa.Record(pa.Pairs{})},
+		{"principal", pa.Principal()}, {"action", pa.Action()}, {"resource", pa.Resource()}, {"context", pa.Context()},
+	}
+	type head struct {
+		text string
+		pol  func() *pa.Policy
+	}
+	heads := []head{
+		{"permit(principal, action, resource);", func() *pa.Policy { return pa.Permit() }},
+		{"forbid(principal, action, resource);", func() *pa.Policy { return pa.Forbid() }},
+		{`@k("v") permit(principal, action, resource);`, func() *pa.Policy { return pa.Annotation("k", "v").Permit() }},
+		{`@k("v") @j("w") forbid(principal, action, resource);`, func() *pa.Policy { return pa.Annotation("k", "v").Annotation("j", "w").Forbid() }},
+		{`@k("v") @j("") permit(principal, action, resource);`, func() *pa.Policy { return pa.Permit().Annotate("k", "v").Annotate("j", "") }},
+		{`permit(principal == U::"x", action == U::"x", resource == U::"x");`, func() *pa.Policy { return pa.Permit().PrincipalEq(u).ActionEq(u).ResourceEq(u) }},
+		{`permit(principal in U::"x", action in U::"x", resource in U::"x");`, func() *pa.Policy { return pa.Permit().PrincipalIn(u).ActionIn(u).ResourceIn(u) }},
+		{`permit(principal is NS::T, action in [U::"x", U::"x"], resource is T);`, func() *pa.Policy { return pa.Permit().PrincipalIs("NS::T").ActionInSet(u, u).ResourceIs("T") }},
+		{`forbid(principal is T in U::"x", action, resource is NS::T in U::"x");`, func() *pa.Policy { return pa.Forbid().PrincipalIsIn("T", u).ResourceIsIn("NS::T", u) }},
+		{`permit(principal, action, resource) when { context.a } unless { context.b } when { context.c };`, func() *pa.Policy { return pa.Permit().When(a).Unless(b).When(c) }},
+	}
+	// value builders: compared by value (text has no literal for extension values)
+	pfx := netip.MustParsePrefix("10.1.0.0/16")
+	ipv, _ := types.ParseIPAddr("10.1.0.0/16")
+	tm := time.Date(2024, 2, 29, 1, 2, 3, 4000000, time.UTC)
+	vals := []struct {
+		name string
+		node pa.Node
+		want types.Value
+	}{
+		{"IPAddr(netip.Prefix)", pa.IPAddr(pfx), ipv}, {"IPAddr(types.IPAddr)", pa.IPAddr(ipv), ipv},
+		{"Datetime(time.Time)", pa.Datetime(tm), types.NewDatetimeFromMillis(tm.UnixMilli())}, {"Duration(time.Duration)", pa.Duration(90 * time.Minute), types.NewDurationFromMillis(5400000)},
+	}
+	n := len(rows) + len(heads) + len(vals)
+	return &core.Family{
+		Name: "builder-table",
+		Desc: fmt.Sprintf("%d expression builders, %d policy-head builders and %d value builders of the public ast package, each against the parse of the Cedar text of the node it is documented to build", len(rows), len(heads), len(vals)),
+		N:    int64(n),
+		Run: func(t *core.T, i int64) {
+			k := int(i)
+			cmp := func(text string, built *pa.Policy) {
+				got, err := Parse(text)
+				if err != nil {
+					t.Fail("harness-builder-text", text, "parses", err.Error())
+					return
+				}
+				want := (*xast.Policy)(built)
+				got.Position = want.Position
+				if !reflect.DeepEqual(got, want) {
+					t.Fail("builder-differs-from-text:"+text, text, fmt.Sprintf("%+v", *got), fmt.Sprintf("%+v", *want))
+				}
+			}
+			switch {
+			case k < len(rows):
+				r := rows[k]
+				cmp("permit(principal, action, resource) when { "+r.text+" };", pa.Permit().When(r.node))
+				t.Sample(r.text)
+			case k < len(rows)+len(heads):
+				h := heads[k-len(rows)]
+				cmp(h.text, h.pol())
+				t.Sample(h.text)
+			default:
+				v := vals[k-len(rows)-len(heads)]
+				p := (*xast.Policy)(pa.Permit().When(v.node))
+				nv, ok := p.Conditions[0].Body.(xast.NodeValue)
+				if !ok || !nv.Value.Equal(v.want) {
+					t.Fail("value-builder:"+v.name, v.name, v.want.String(), fmt.Sprintf("%+v", p.Conditions[0].Body))
+				}
+				t.Sample(v.name)
+			}
+			t.Nontrivial()
+			t.AddStates(1)
+		},
+	}
+}
+
 // depth 3 over the precedence-relevant operators (one representative per level).
 func depth3() *core.Family {
 	all := Depth3Exprs()
@@ -570,9 +674,9 @@ func Check() *core.Check {
 		Families: func(tier string) []*core.Family {
 			lv := leaves()
 			if tier == "thorough" {
-				return []*core.Family{literals(), rejections(), heads(), depth1(lv), depth2(lv[:5], allLayouts), depth3()}
+				return []*core.Family{literals(), rejections(), builderTable(), heads(), depth1(lv), depth2(lv[:5], allLayouts), depth3()}
 			}
-			return []*core.Family{literals(), rejections(), heads(), depth1(lv[:5]), depth2(lv[:4], []Layout{LayoutTight, LayoutComments}), depth3()}
+			return []*core.Family{literals(), rejections(), builderTable(), heads(), depth1(lv[:5]), depth2(lv[:4], []Layout{LayoutTight, LayoutComments}), depth3()}
 		},
 	}
 }
